@@ -54,3 +54,40 @@ Definition lift_step (o : oto) (op : oto_op) : res (val * oto) :=
   | (o', Ok r) => Ok (r, o')
   | (_, Raise e) => Raise e
   end.
+
+(* ---- ManyToMany: statements on self.data / self.inv.data (dicts of sets) ----------------
+   Operands are hashable here (the statement's quantifier; the ManyToMany model has no
+   unhashable tokens), so the only exception is KeyError. *)
+Inductive msel := MData | MInvData.
+Definition msel_get (m : m2m) (d : msel) : sdict := match d with MData => m_data m | MInvData => m_inv m end.
+Definition mput (m : m2m) (d : msel) (x : sdict) : m2m :=
+  match d with MData => mkM x (m_inv m) | MInvData => mkM (m_data m) x end.
+
+(* k in D *)
+Definition pm_contains (m : m2m) (d : msel) (k : nat) : res bool := Ok (d_mem (msel_get m d) k).
+(* D[k] = set() *)
+Definition pm_set_empty (m : m2m) (d : msel) (k : nat) : m2m := mput m d (d_set (msel_get m d) k []).
+(* D[k].add(v) : the set object stored in the dict is mutated *)
+Definition pm_set_add (m : m2m) (d : msel) (k v : nat) : res m2m :=
+  match d_get (msel_get m d) k with
+  | Some s => Ok (mput m d (d_set (msel_get m d) k (s_add s v)))
+  | None => Raise KeyError
+  end.
+(* D[k].remove(v) *)
+Definition pm_set_remove (m : m2m) (d : msel) (k v : nat) : res m2m :=
+  match d_get (msel_get m d) k with
+  | Some s => if s_mem v s then Ok (mput m d (d_set (msel_get m d) k (s_rm s v))) else Raise KeyError
+  | None => Raise KeyError
+  end.
+(* truthiness of D[k] *)
+Definition pm_truthy (m : m2m) (d : msel) (k : nat) : res bool :=
+  match d_get (msel_get m d) k with
+  | Some s => Ok (match s with [] => false | _ => true end)
+  | None => Raise KeyError
+  end.
+(* del D[k] *)
+Definition pm_delitem (m : m2m) (d : msel) (k : nat) : res m2m :=
+  match d_get (msel_get m d) k with
+  | Some _ => Ok (mput m d (d_rm (msel_get m d) k))
+  | None => Raise KeyError
+  end.
